@@ -97,6 +97,7 @@ macro_rules! inst {
         pub fn $name() { run::<$k>() }
     };
 }
+inst!(c03a_scopes_1, 1);
 inst!(c03a_scopes_2, 2);
 inst!(c03a_scopes_3, 3);
 inst!(c03a_scopes_4, 4);
